@@ -125,7 +125,9 @@ class TraitSet(set):
         added : set
             The new items that have been added to the set.
         """
-        for notifier in self.notifiers:
+        # Iterate over a copy: a notifier may remove itself (or others)
+        # from the list while being called.
+        for notifier in list(self.notifiers):
             notifier(self, removed, added)
 
     # -- set interface -------------------------------------------------------
